@@ -111,6 +111,10 @@ def run(ctx):
             T = 45 - W + 1
             lam = ro(np.full((n, n), 0.11) + 0.01 * np.eye(n), order) if i % 2 == 0 else 0.11
             beta = ro(np.full(T, 3.0)) if i % 3 == 0 else 3.0
+            if i % 3 == 0 and i % 2 == 1:
+                bv = np.full(T, 3.0)
+                bv[T // 2] = np.inf           # "never switch here": a legal if unusual per-pair cost
+                beta = ro(bv)
             if isinstance(lam, np.ndarray) or isinstance(beta, np.ndarray):
                 ctx.mark_nontrivial(("forms", i))
             np.random.seed(i)
